@@ -54,8 +54,8 @@ class Check(PropertyCheck):
     QUICK_N = 200
 
     def make_impl(self, scenario):
-        from impl_ext import ImplFeat
-        return ImplFeat(scenario.meta.get("filter_style", "callable"))
+        from impl_ext import ImplGraph
+        return ImplGraph(scenario.meta.get("filter_style", "callable"))
 
     def generate(self, rng, n, tier):
         for _ in range(n):
@@ -110,6 +110,12 @@ class Check(PropertyCheck):
             tr.take(j)
             n_acc += 1
             lines += [f"disp {j} {p} {m}", "fsnap", "fspec"]
+            if rng.random() < 0.04 and not long_times:
+                # an observer (or a residual graph updater) is attached in the middle of the episode: those that share helper
+                # observers with the ones already there must leave them as they are
+                lines += [rng.choice(["fobs is_completed -", "fobs is_completed mj", "fobs remaining_operations -",
+                                      f"fres {rng.choice(['agent_task', 'complete_agent_task', 'disjunctive'])} 1 1",
+                                      "fobs unscheduled -"]), "fsnap", "fspec"]
             if rng.random() < 0.04:
                 # the user unsubscribes one observer (never one that another observer uses as its helper): the others go on
                 # (and never one the observer-based rule looks up, when that rule is among the readers)
@@ -146,6 +152,14 @@ class Check(PropertyCheck):
                 except Exception as e:  # pylint: disable=broad-except
                     res.append(("constructor", f"{k} observer cannot be constructed: {type(e).__name__}: {e}"))
             return res
+        # observers attached in the MIDDLE of an episode start from what they can see then (the library does not back-fill them with the
+        # history): their own values are judged from the next reset on; the observers that were there before are judged throughout
+        if line.startswith(("inst", "redisp")) or line == "reset":
+            ctx["late_from"], ctx["dispatched"] = None, 0
+        elif line.startswith("disp"):
+            ctx["dispatched"] = ctx.get("dispatched", 0) + 1
+        elif line.startswith(("fobs", "fres", "fcomp", "rule", "scores")) and ctx.get("dispatched", 0) > 0 and ctx.get("late_from") is None:
+            ctx["late_from"] = ctx.get("heap_size", 0)
         if line != "fsnap":
             return res
         d = impl.dispatcher
@@ -173,6 +187,9 @@ class Check(PropertyCheck):
         # observers the user unsubscribed are no longer notified: their (frozen) arrays are not statements about the current state
         subscribed = {int(t) for t in out.split(" || ")[0].split()[1:]}
         snap = {oid: v for oid, v in snap.items() if oid in subscribed}
+        ctx["heap_size"] = len(impl.fheap)
+        if ctx.get("late_from") is not None:
+            snap = {oid: v for oid, v in snap.items() if oid < ctx["late_from"]}
 
         def bad(kind, what, i, got, want):
             if got is None or abs(want) >= 2 ** 24:
